@@ -1,23 +1,24 @@
+\* as is, thorough: two workers, a caller, three rounds, a lost and an inbound connection
 SPECIFICATION Spec
 CONSTANTS
   Peers = {"p1", "p2"}
   Self = "self"
   Limit = 2
   Workers = {"w1", "w2"}
-  Callers = {}
+  Callers = {"c1"}
   Delay = 1
   MaxRounds = 3
   MaxDrops = 1
-  MaxInbound = 0
+  MaxInbound = 1
   MaxFail = 0
-  MaxCalls = 0
+  MaxCalls = 1
   MaxApi = 0
   WithGC = TRUE
   AtomicPeers = FALSE
   SignedWant = FALSE
   Serialized = FALSE
   DirectAPI = FALSE
-VIEW state
 CHECK_DEADLOCK FALSE
+VIEW state
 INVARIANTS TypeOK SizeBound ReportedExactlyOnce ViewBookkeeping PeersResult
 PROPERTIES ContactLeavesBackoff GCInvisible
